@@ -409,6 +409,9 @@ func (d *drv) poll(st step) {
 		}
 	}
 	shape := fmt.Sprintf("loop/cph%v/%s/%s/rpc%d", c["cph"], ri.txkind, fate, ri.nrpc)
+	if crashed {
+		shape = "loop/crashed"
+	}
 	d.emit(rec.M{"ev": "LoopEnd", "m": m.key.Name, "delivered": delivered, "txkind": ri.txkind, "fate": fate,
 		"executed": ri.execd, "confirmed": ri.confirmed, "crashed": crashed, "c": c}, shape, delivered)
 }
